@@ -457,6 +457,7 @@ func main() {
 	r.Assume("stores are up (last heartbeat = now) or down (last heartbeat 100 h ago) against WaitStoreTimeout = 1 h; WaitAsyncTimeout is 0 (elapsed) or 1 h (never elapses within a history); no verdict depends on a wall-clock race")
 	r.Assume("region reports carry the served state id or an older one; ids that were not issued yet are not generated (stores only echo ids they were told)")
 	r.Assume("documented special cases are not judged for permission (counted as skipped_ambiguous_*): UpdateConfig majority->dr-auto-sync enters sync_recover, a label-key change enters async, the state served by a fresh manager on empty storage is sync; a region whose latest report regressed after it had reported integrity under the served id is judged by 'has reported'")
+	r.Assume("free-running rounds and the gated grid judge a tick-made transition as permitted when the old or the new configuration permits it, and accept a re-issue of async / sync_recover under a fresh id (the tick checks the state in one critical section and switches in a later one); declaring sync is always tied to the reports under the id being served")
 	r.Assume("trusted: mockcluster region tree / store table / id allocator (unique ids), kvx wrapper, the recording FileReplicater fake, the logical clock")
 	opts := config.NewTestOptions()
 
